@@ -160,6 +160,12 @@ func (l *Lexer) Split() []*Token {
 			tokStart = i + 1
 		case '"', '\'':
 			if !strStart {
+				// Flush the pending word before the literal starts
+				curr = l.Query[tokStart : tokStart+min(tokLen, l.Length-tokStart)]
+				if token := buildToken(curr, tokStartPos); token != nil {
+					ret = append(ret, token)
+				}
+				tokLen = 0
 				strStart = true
 				strStartChar = char
 				tokStartPos = i
@@ -174,11 +180,19 @@ func (l *Lexer) Split() []*Token {
 				}
 				ret = append(ret, token)
 				tokLen = 0
+				tokStartPos = i + 1
+				tokStart = i + 1
 			} else {
 				tokLen++
 			}
 		case '`':
 			if !strStart {
+				// Flush the pending word before the quoted name starts
+				curr = l.Query[tokStart : tokStart+min(tokLen, l.Length-tokStart)]
+				if token := buildToken(curr, tokStartPos); token != nil {
+					ret = append(ret, token)
+				}
+				tokLen = 0
 				strStart = true
 				strStartChar = char
 				tokStartPos = i
@@ -193,6 +207,8 @@ func (l *Lexer) Split() []*Token {
 				}
 				ret = append(ret, token)
 				tokLen = 0
+				tokStartPos = i + 1
+				tokStart = i + 1
 			} else {
 				tokLen++
 			}
